@@ -43,6 +43,9 @@ def run_equiv(c):
         elif any(tuple(sd[k].shape) != tuple(dsd0[k].shape) for k in sd):
             fail('state-dict-shapes', 'shapes differ for %s' % [k for k in sd if tuple(sd[k].shape) != tuple(dsd0[k].shape)][:3])
         d.load_state_dict(sd)
+        if c.get('eval'):       # dropout configured but inactive: the layers must agree exactly
+            t.eval()
+            d.eval()
         # and back into a fresh torch layer
         t2, _ = make_pair(dict(c, seed=c['seed'] + 1))
         t2.load_state_dict(d.state_dict())
